@@ -33,7 +33,7 @@ ASSUME = [
     "operands whose kg_asarray image is an object array of 2 or more dimensions (all members lists of one length, not numeric) are outside the model; they are compared against the spec only",
     "integers stay below 2^53 in magnitude: int64 wrap-around and the float route of :% are not modelled (Z is unbounded in the theorems)",
     "decimal text <-> binary64 conversion is Python's (operands are passed to the model as bit patterns)",
-    "np.isclose is modelled in binary64 with rtol=1e-5, atol=1e-8; Power, Format, Form, Amend, in-depth verbs, Shape, Group, Grade, Range, Transpose, Not are not modelled in this version",
+    "np.isclose is modelled in binary64 with rtol=1e-5, atol=1e-8; Power, Format, Format2, Form, Amend, Amend-in-Depth, Index-in-Depth and Undefined are not modelled in this version; np.argsort is stable on the operand sizes used (insertion sort below 16 elements)",
 ]
 
 # ---------------------------------------------------------------- translator
@@ -251,7 +251,8 @@ COUNT_RIGHT = ("eval_dyad_at_index",)
 
 MODELLED_MONADS = ["eval_monad_atom", "eval_monad_char", "eval_monad_enumerate", "eval_monad_expand_where", "eval_monad_first",
                    "eval_monad_floor", "eval_monad_list", "eval_monad_negate", "eval_monad_reciprocal", "eval_monad_reverse",
-                   "eval_monad_size"]
+                   "eval_monad_size", "eval_monad_shape", "eval_monad_transpose", "eval_monad_not", "eval_monad_grade_up",
+                   "eval_monad_grade_down", "eval_monad_groupby", "eval_monad_range"]
 MODELLED_DYADS = ["eval_dyad_add", "eval_dyad_subtract", "eval_dyad_multiply", "eval_dyad_divide", "eval_dyad_minimum",
                   "eval_dyad_maximum", "eval_dyad_remainder", "eval_dyad_integer_divide", "eval_dyad_less", "eval_dyad_more",
                   "eval_dyad_equal", "eval_dyad_take", "eval_dyad_drop", "eval_dyad_rotate", "eval_dyad_split", "eval_dyad_cut",
@@ -525,6 +526,11 @@ WITNESSES = {
     "find-nested": ("eval_dyad_find", lit([[1, 2], [1, 1]]), I(1)),
     "find-symbol": ("eval_dyad_find", lit([Y("a"), Y("b")]), Y("a")),
     "join-ragged": ("eval_dyad_join", lit([[1, 2], [3, 4]]), lit([[[1, 2, 3], [4, 5, 6]], [[7, 8, 9], [10, 11, 12]]])),
+    "shape-ragged": ("eval_monad_shape", lit([1, [2]]), None),
+    "shape-strlike-member": ("eval_monad_shape", lit([C("a"), C("b")]), None),
+    "group-sorted-order": ("eval_monad_groupby", S("hello foo"), None),
+    "group-non-numeric": ("eval_monad_groupby", lit([1, "a"]), None),
+    "range-string-sorted": ("eval_monad_range", S("hello"), None),
     "char-of-empty": ("eval_monad_char", lit([]), None),
     "expand-empty": ("eval_monad_expand_where", lit([]), None),
 }
